@@ -46,6 +46,7 @@ str_of_any = z3.Function("str_of_any", V, StrS)
 int_of_str = z3.Function("int_of_str", StrS, IntS)
 counter_of = z3.Function("counter_of", IntS, ElemArr, V)   # Counter(list) as abstract value
 set_card = z3.Function("set_card", MemArr, IntS)
+pdepth_f = z3.Function("pdepth", ElemArr, IntS, IntS)   # bracket depth of a node list prefix (defined by unfolding)
 seq_of = z3.Function("seq_of", IntS, ElemArr, V)        # abstract key of a list's contents (injective, see axiom)
 
 
